@@ -35,8 +35,9 @@ class C13(P.Property):
                  "and after each mutation system call of every persisting handler (exhaustive over the reference workflow), restarted, "
                  "and a resume driver must finish the workflow; plus seeded multi-crash runs")
     level_text = ("every single crash point (before/after each mkdir/open/write/unlink/replace issued by server and client while running "
-                  "the reference workflow, for 3 schemes x 2 write-buffer sizes) is enumerated and executed; multi-crash schedules "
-                  "(1-3 crashes, incl. during recovery and of both components) are sampled by seed")
+                  "the reference workflow, for 3 schemes x 2 write-buffer sizes; thorough: all nine schemes, a 1.4 MB index, and every ordered "
+                  "pair of crash points for one scheme) is enumerated and executed; multi-crash schedules (1-3 crashes, incl. during "
+                  "recovery and of both components) are sampled by seed")
     level_note = ("crash = process death at system-call granularity (completed calls durable, Python-level buffers lost); no power-loss "
                   "model; crash points are those of the simulated pure-Python io stack (any legal system-call sequence is a legal place "
                   "to die); trusted: simulator, resume driver and oracle in props/c13.py")
